@@ -28,7 +28,7 @@ ASSUMPTIONS = ["'bounded time' is checked against a horizon of 40 s of virtual t
                "'unencodable' = a message whose size() succeeds and whose encode() raises (AT4 GroupControlMessage(group_number=300))"]
 
 CONNECT_ALPHABET = ("refuse", "accept")
-INJECT_ALPHABET = ("nop", "eof", "reset", "garbage", "badcrc", "truncated", "werr", "badmsg", "subraise", "undecodable")
+INJECT_ALPHABET = ("nop", "eof", "reset", "unreach", "garbage", "badcrc", "truncated", "werr", "badmsg", "subraise", "undecodable")
 
 
 def bounds(tier):
@@ -39,7 +39,7 @@ def bounds(tier):
 
 ALPHABETS = {
     "full": INJECT_ALPHABET,
-    "wfault": ("nop", "werr", "reset", "badmsg"),
+    "wfault": ("nop", "werr", "reset", "unreach", "badmsg"),
     "rx": ("nop", "eof", "garbage", "badcrc", "truncated", "undecodable", "subraise"),
 }
 
@@ -155,6 +155,10 @@ def run(ctx, p):
                     c.eof()
                 elif a == "reset":
                     c.reset()
+                elif a == "unreach":
+                    # the link dies with an OSError that is not a ConnectionError; closing the transport reports it again
+                    c.wait_closed_exc = OSError(113, "No route to host")
+                    c.reset(OSError(113, "No route to host"))
                 elif a == "garbage":
                     c.send(bytes([0x00, 0x01, 0x02, 0x03, 0x55, 0x05, 0x06, 0x07, 0x08, 0x09, 0xAA, 0x0B] * 2))
                 elif a == "badcrc":
